@@ -62,6 +62,32 @@ def obligations_by_site(runs):
     return by
 
 
+def r1o(db, rep, rid="R1o"):
+    r = rep.rule(rid, "K8", "load address at the top of the address space: successor and instruction addresses derived from the block's "
+                 "load address are computed without an overflow check that panics (debug builds check `address + offset`)")
+    for arch in ARCHES:
+        fn = lifters.TB[arch]
+        body = db.mir.get(fn)
+        rep.anchor(body is not None, fn)
+        tm = terms_of(db, fn, {})
+        al = None
+        for nm, pl in body.get("names", []):
+            if nm == "address" and len(pl) == 1 and pl[0] <= body["argc"] and al is None:
+                al = pl[0]
+        rep.anchor(al is not None, "%s: parameter address" % fn)
+        sites = []
+        for i, b in enumerate(body["blocks"]):
+            t = b["t"]
+            if t["k"] == "Assert" and t.get("ak") == "Overflow" and t["detail"]["op"] == "Add":
+                a, bb = tm.operand(t["detail"]["a"]), tm.operand(t["detail"]["b"])
+                if ("param", al) in (a, bb):
+                    sites.append(t["l"])
+        r.decide(not sites, "%s|address_add_overflow" % arch, db.where(body, sites[0]) if sites else db.where(body),
+                 "%s translate_block computes `address + offset` with overflow checking at %d site(s): lifting bytes whose window "
+                 "reaches the end of the 64-bit address space panics with `attempt to add with overflow` in builds with overflow "
+                 "checks (wraps silently otherwise)" % (arch, len(sites)))
+
+
 def run(db, rep, feat, tier):
     rep.explanation = (
         "Static rules over HIR/MIR of lib/translator/**: (R1) the call graph from the seven Translator::translate_block "
@@ -75,7 +101,8 @@ def run(db, rep, feat, tier):
         "control context, and the successor lists of terminators, must be a recognised complementary pair; (R4) all "
         "handlers reach Ok only through set_entry and set_exit; (R5) each translate_block loop adds the decoded size to "
         "its offset on every path back to the loop head; (R6) the default arm of every dispatch is an intrinsic or an "
-        "error. Decoder termination is not decided; overflow assertions (debug only) are not panic sites.")
+        "error; (R1o) `address + offset` in the block translators is an overflow-checked addition of the load address. "
+        "Decoder termination is not decided; other overflow assertions (debug only) are not panic sites.")
     runs = shape_runs(db)
     r2(db, rep, runs)
     r3(db, rep, runs)
@@ -83,6 +110,7 @@ def run(db, rep, feat, tier):
     r5(db, rep)
     r6(db, rep)
     r1(db, rep, runs)
+    r1o(db, rep)
 
 
 # ------------------------------------------------------------------------------------------------ R2
@@ -352,7 +380,7 @@ def r4(db, rep, arches=ARCHES, rid="R4"):
     for arch in arches:
         hs = lifters.handlers_of(db, arch)
         rep.anchor(len(hs) >= {"x86": 80, "mips": 60, "ppc": 20, "aarch64": 20}[arch], "%s handlers (found %d)" % (arch, len(hs)))
-        hs = [h for h in hs if last_seg(h) not in ("rep_prefix", "repne_prefix")]
+        hs = list(hs)
         lifters.entry_exit_rule(db, rep, r, hs)
     r.floor(sum(FLOOR_R4[a] for a in arches), "handlers")
 
